@@ -21,13 +21,33 @@ theorem FallsOkC_of_Ext {c c' : ChanState} (h : Ext c c') (hf : FallsOkC c') : F
   have := hf s (h.2.2.1.subset hs) p hp
   rw [h.1] at this; exact this
 
-/-- `c'` extends `c` and keeps `LPC` (given A1 on the final instruction list). -/
-def KG (c c' : ChanState) : Prop := Ext c c' ∧ (FallsOkC c' → LPCc c → LPCc c')
+/-- End of the most recent target instruction on a reversed instruction list (`last_target()`). -/
+def lastTargetOf (l : List Slot) : Int :=
+  match l.find? Slot.isTarget with
+  | some s => s.tf
+  | none => 0
 
-theorem KG.rfl' (c : ChanState) : KG c c := ⟨Ext.refl c, fun _ h => h⟩
+/-- Retarget rule: every target instruction but the initial one lasts at least
+`fixed_retarget_t` and ends at least `min_retarget_interval` after the end of the target
+instruction before it. -/
+def RT (cfg : ChanCfg) : List Slot → Prop
+  | [] => True
+  | s :: rest =>
+    (rest ≠ [] → s.isTarget = true →
+      (cfg.fixedRetarget : Int) ≤ s.tf - s.ti ∧ (cfg.minRetarget : Int) ≤ s.tf - lastTargetOf rest) ∧
+    RT cfg rest
+
+def RTc (c : ChanState) : Prop := RT c.cfg c.slots.reverse
+
+/-- `c'` extends `c` and keeps `LPC` (given A1 on the final instruction list) and the retarget rule. -/
+def KG (c c' : ChanState) : Prop :=
+  Ext c c' ∧ (FallsOkC c' → LPCc c → LPCc c') ∧ (RTc c → RTc c')
+
+theorem KG.rfl' (c : ChanState) : KG c c := ⟨Ext.refl c, fun _ h => h, fun h => h⟩
 
 theorem KG.trans {a b c : ChanState} (h1 : KG a b) (h2 : KG b c) : KG a c :=
-  ⟨h1.1.trans h2.1, fun hf hl => h2.2 hf (h1.2 (FallsOkC_of_Ext h2.1 hf) hl)⟩
+  ⟨h1.1.trans h2.1, fun hf hl => h2.2.1 hf (h1.2.1 (FallsOkC_of_Ext h2.1 hf) hl),
+   fun h => h2.2.2 (h1.2.2 h)⟩
 
 /-- Appending non-target instructions keeps `LPC`. -/
 theorem LPC_append_nt (new : List Slot) : ∀ (l : List Slot), LPC l.reverse →
@@ -41,6 +61,20 @@ theorem LPC_append_nt (new : List Slot) : ∀ (l : List Slot), LPC l.reverse →
     apply ih _ _ (fun s hs => hn s (List.mem_cons_of_mem _ hs))
     rw [List.reverse_append]
     refine ⟨fun ht => ?_, h⟩
+    have := hn x List.mem_cons_self
+    rw [this] at ht; cases ht
+
+theorem RT_append_nt (cfg : ChanCfg) (new : List Slot) : ∀ (l : List Slot), RT cfg l.reverse →
+    (∀ s ∈ new, s.isTarget = false) → RT cfg (l ++ new).reverse := by
+  induction new with
+  | nil => intro l h _; simpa using h
+  | cons x rest ih =>
+    intro l h hn
+    have : l ++ x :: rest = (l ++ [x]) ++ rest := by simp
+    rw [this]
+    apply ih _ _ (fun s hs => hn s (List.mem_cons_of_mem _ hs))
+    rw [List.reverse_append]
+    refine ⟨fun _ ht => ?_, h⟩
     have := hn x List.mem_cons_self
     rw [this] at ht; cases ht
 
@@ -61,9 +95,11 @@ theorem NT.trans {a b c : ChanState} (h1 : NT a b) (h2 : NT b c) : NT a c := by
 
 theorem NT.kg {c c' : ChanState} (h : NT c c') : KG c c' := by
   obtain ⟨e, new, hs, ht⟩ := h
-  refine ⟨e, fun _ hl => ?_⟩
-  unfold LPCc at *
-  rw [hs]; exact LPC_append_nt _ _ hl ht
+  refine ⟨e, fun _ hl => ?_, fun hr => ?_⟩
+  · unfold LPCc at *
+    rw [hs]; exact LPC_append_nt _ _ hl ht
+  · unfold RTc at *
+    rw [hs, e.1]; exact RT_append_nt _ _ _ hr ht
 
 theorem NT_snoc (c : ChanState) (x : Slot) (hx : x.isTarget = false) :
     NT c { c with slots := c.slots ++ [x] } :=
@@ -251,25 +287,62 @@ theorem bind_nt {c : ChanState} {r : CRes} {f : ChanState → CRes} {ms : Option
   | none => exact hr.trans (hf _ hi)
   | some e => exact hr
 
-/-- The instruction appended by the tail of `add_target`. -/
+theorem lastTarget_le_last {ms : Option Nat} {c : ChanState} {last : Slot} (hi : ChanInv ms c)
+    (hl : c.last = .ok last) : c.lastTarget ≤ last.tf := by
+  obtain ⟨rest, hr⟩ := last_ok hl
+  have hinv := hi.2; rw [hr] at hinv
+  have hd := InvR_DescTf hinv
+  have h0 := (InvR_head hinv).2
+  unfold ChanState.lastTarget
+  rw [hr]
+  cases hf : (last :: rest).find? Slot.isTarget with
+  | none => exact h0
+  | some s =>
+    have hm := List.mem_of_find?_eq_some hf
+    rcases List.mem_cons.mp hm with h | h
+    · subst h; exact Int.le_refl _
+    · exact DescTf_le hd s h
+
+/-- The instruction appended by the tail of `add_target`: it starts at the channel end, lasts
+at least `fixed_retarget_t` and ends at least `min_retarget_interval` after the previous target
+instruction's end. -/
 theorem addTargetTail_spec {ms : Option Nat} {c c' : ChanState} {qs : List Nat}
-    (h : addTargetTail ms c qs = .ok c') :
+    (hi : ChanInv ms c) (h : addTargetTail ms c qs = .ok c') :
     ∃ (last : Slot) (delta : Nat), c.last = .ok last ∧
-      c' = { c with slots := c.slots ++ [⟨.target, last.tf, last.tf + (delta : Int), qs⟩] } := by
+      c' = { c with slots := c.slots ++ [⟨.target, last.tf, last.tf + (delta : Int), qs⟩] } ∧
+      c.cfg.fixedRetarget ≤ delta ∧ (c.cfg.minRetarget : Int) ≤ last.tf + delta - c.lastTarget := by
   unfold addTargetTail at h
   cases hl : c.last with
   | error e => simp [hl] at h
   | ok last =>
     simp only [hl] at h
+    have hlt := lastTarget_le_last hi hl
     split at h
     · cases h
-    · rename_i delta _
+    · rename_i delta hd
       split at h
       · cases h
-      · injection h with h; exact ⟨last, delta, rfl, h.symm⟩
+      · injection h with h
+        refine ⟨last, delta, rfl, h.symm, ?_⟩
+        have hrd : retargetDelta c last.tf =
+            (if c.cfg.fixedRetarget ≠ 0 then
+              max (min (max ((c.cfg.minRetarget : Int) - (last.tf - c.lastTarget)) 0) c.cfg.minRetarget)
+                (c.cfg.fixedRetarget : Int)
+             else min (max ((c.cfg.minRetarget : Int) - (last.tf - c.lastTarget)) 0) c.cfg.minRetarget) := rfl
+        by_cases hz : retargetDelta c last.tf ≠ 0
+        · rw [if_pos hz] at hd
+          have ha := adjustDuration_ok hi.1 hd
+          have := ha.2.1
+          constructor <;> (split at hrd <;> omega)
+        · rw [if_neg hz] at hd
+          injection hd with hd
+          subst hd
+          have hz' : retargetDelta c last.tf = 0 := by omega
+          constructor <;> (split at hrd <;> omega)
 
-/-- **`add_target` keeps `LPC`** outside EOM mode: the target instruction is appended after
-`wait_for_fall`, i.e. at or after the end (standard fall time included) of the last pulse. -/
+/-- **`add_target` keeps `LPC`** outside EOM mode (the target instruction is appended after
+`wait_for_fall`, i.e. at or after the end, standard fall time included, of the last pulse)
+**and the retarget rule** (in any mode). -/
 theorem addTarget_kg {ms : Option Nat} {c : ChanState} {qs : List Nat} (hi : ChanInv ms c)
     (hne : c.inEomMode = false) : KG c (addTarget ms c qs).c := by
   refine ⟨(addTarget_inv hi).2, ?_⟩
@@ -277,22 +350,28 @@ theorem addTarget_kg {ms : Option Nat} {c : ChanState} {qs : List Nat} (hi : Cha
   by_cases hemp : c.slots.isEmpty = true
   · rw [if_pos hemp]
     have he : c.slots = [] := by simpa using hemp
-    intro _ _
     unfold CRes.lift
     cases hc : checkDuration ms 0 with
-    | error e => simp only [bind, Except.bind]; unfold LPCc; rw [he]; trivial
+    | error e =>
+      simp only [bind, Except.bind]
+      exact ⟨fun _ h => h, fun h => h⟩
     | ok u =>
       simp only [bind, Except.bind]
-      unfold LPCc; simp only [he, List.nil_append, List.reverse_cons, List.reverse_nil]
-      exact ⟨fun _ q pq h => by simp [firstPulse] at h, trivial⟩
+      constructor
+      · intro _ _
+        unfold LPCc; simp only [he, List.nil_append, List.reverse_cons, List.reverse_nil]
+        exact ⟨fun _ q pq h => by simp [firstPulse] at h, trivial⟩
+      · intro _
+        unfold RTc; simp only [he, List.nil_append, List.reverse_cons, List.reverse_nil]
+        exact ⟨fun h => absurd rfl h, trivial⟩
   · rw [if_neg hemp]
     cases hsame : sameTargets c qs with
-    | true => simp only [if_true]; exact fun _ h => h
+    | true => simp only [if_true]; exact ⟨fun _ h => h, fun h => h⟩
     | false =>
       simp only [Bool.false_eq_true, if_false]
       cases hw : waitForFall ms c with
       | error e =>
-        simp only [CRes.lift, CRes.bind]; exact fun _ h => h
+        simp only [CRes.lift, CRes.bind]; exact ⟨fun _ h => h, fun h => h⟩
       | ok c1 =>
         simp only [CRes.lift, CRes.bind]
         obtain ⟨hnt, heom, hfacts⟩ := waitForFall_nt hi hw
@@ -302,25 +381,36 @@ theorem addTarget_kg {ms : Option Nat} {c : ChanState} {qs : List Nat} (hi : Cha
         | error e => exact hnt.kg.2
         | ok c2 =>
           simp only
-          obtain ⟨last, delta, hl, hc2⟩ := addTargetTail_spec ht
+          obtain ⟨last, delta, hl, hc2, hfix, hmin⟩ := addTargetTail_spec hi1 ht
           subst hc2
-          intro hf hlpc
-          have hf1 : FallsOkC c1 := by
-            intro s hs p hp
-            exact hf s (by show s ∈ c1.slots ++ [_]; exact List.mem_append_left _ hs) p hp
-          have hfc : FallsOkC c := FallsOkC_of_Ext hnt.1 hf1
-          have hl1 := hnt.kg.2 hf1 hlpc
-          show LPC (c1.slots ++ [_]).reverse
-          rw [List.reverse_append]
-          refine ⟨fun _ q pq hq => ?_, hl1⟩
-          show q.tf + (pq.fallStd : Nat) ≤ last.tf
-          have hq : firstPulse c1.slots.reverse = some (q, pq) := hq
-          rw [hfp] at hq
-          have h1 := (getDuration_true_ge hi hne hfc hq).1
           obtain ⟨rest, hr⟩ := last_ok hl
-          have h2 : c1.getDuration false = last.tf := by
-            unfold ChanState.getDuration; rw [hr]; rfl
-          omega
+          constructor
+          · intro hf hlpc
+            have hf1 : FallsOkC c1 := by
+              intro s hs p hp
+              exact hf s (by show s ∈ c1.slots ++ [_]; exact List.mem_append_left _ hs) p hp
+            have hfc : FallsOkC c := FallsOkC_of_Ext hnt.1 hf1
+            have hl1 := hnt.kg.2.1 hf1 hlpc
+            show LPC (c1.slots ++ [_]).reverse
+            rw [List.reverse_append]
+            refine ⟨fun _ q pq hq => ?_, hl1⟩
+            show q.tf + (pq.fallStd : Nat) ≤ last.tf
+            have hq : firstPulse c1.slots.reverse = some (q, pq) := hq
+            rw [hfp] at hq
+            have h1 := (getDuration_true_ge hi hne hfc hq).1
+            have h2 : c1.getDuration false = last.tf := by
+              unfold ChanState.getDuration; rw [hr]; rfl
+            omega
+          · intro hrt
+            have hr1 := hnt.kg.2.2 hrt
+            show RT c1.cfg (c1.slots ++ [_]).reverse
+            rw [List.reverse_append]
+            refine ⟨fun _ _ => ?_, hr1⟩
+            show (c1.cfg.fixedRetarget : Int) ≤ last.tf + (delta : Int) - last.tf ∧
+              (c1.cfg.minRetarget : Int) ≤ last.tf + (delta : Int) - lastTargetOf c1.slots.reverse
+            have : lastTargetOf c1.slots.reverse = c1.lastTarget := rfl
+            rw [this]
+            constructor <;> omega
 
 /-- Good step that appends non-target instructions only. -/
 def GN (ms : Option Nat) (c c' : ChanState) : Prop := Good ms c c' ∧ NT c c'
